@@ -156,6 +156,8 @@ static std::vector<Obj> pool(bool thorough) {
       {"Mirror", [](const Manifold& m) { return m.Scale({-1, 1, 1}); }},
       {"Rotate", [](const Manifold& m) { return m.Rotate(17, 31, 47).Translate({0.1, 0.2, 0.3}); }},
       {"AsOriginal", [](const Manifold& m) { return m.AsOriginal(); }},
+      // a tolerance above the rounding floor of either precision must survive the trip ("a tolerance that is not smaller")
+      {"SetTolerance(.01)", [](const Manifold& m) { return m.SetTolerance(0.01); }},
   };
   std::vector<Obj> out;
   // depth 1: u(s)
